@@ -20,14 +20,16 @@ func c14Pool() []pureProg {
 	return []pureProg{
 		{name: "scalar", main: "main.tsh", files: map[string]string{"main.tsh": "x := " + m(0) + "\nfor i := 0; i < 2; i++ {\n\tif x < " + m(1) + " {\n\t\tprint(x + i)\n\t}\n}\ns := []int{" + m(2) + "}\ns[2] = x\nprint(len(s), \"v\")\n"}},
 		{name: "functions", main: "main.tsh", files: map[string]string{"main.tsh": "func a(p int) int {\n\treturn p * " + m(0) + "\n}\nfunc b(p int) (int, int) {\n\treturn a(p), a(p + 1)\n}\nfunc unused() {\n\tprint(1)\n}\nq, r := b(" + m(1) + ")\nprint(q, r)\n"}},
+		{name: "helpers", main: "main.tsh", files: map[string]string{"main.tsh": "a := []int{" + m(0) + "}\na[2] = 5\nb := []int{}\nn := copy(b, a)\ns := \"hello\"\nprint(n, len(a), s[1:3], s[0])\nfunc unused() int {\n\treturn 1\n}\nfunc a2(p int) int {\n\treturn p\n}\nprint(a2(" + m(1) + "))\n"}},
+		{name: "same-names", main: "main.tsh", files: map[string]string{"main.tsh": "func a(p int) int {\n\treturn p + 1\n}\nfunc unused() int {\n\treturn a(1)\n}\nfunc a2(p int) int {\n\treturn p\n}\nprint(unused(), " + m(0) + ")\n"}},
 		{name: "two-imports", main: "main.tsh", files: map[string]string{
 			"main.tsh":    "import (\n\th \"lib/h.tsh\"\n\tk \"lib/k.tsh\"\n)\nprint(h.Hello(" + m(0) + "), k.Twice(" + m(1) + "))\n",
-			"lib/h.tsh":   "func helper(a int) int {\n\treturn a + 1\n}\nfunc Hello(a int) int {\n\treturn helper(a)\n}\nfunc Other() int {\n\treturn 3\n}\n",
+			"lib/h.tsh":   "func helper(a int) int {\n\treturn a + 1\n}\nfunc Hello(a int) int {\n\treturn helper(a)\n}\nfunc Other() int {\n\treturn 3\n}\nprint(\"lib h loaded\", helper(1))\n",
 			"lib/k.tsh":   "func Twice(a int) int {\n\treturn a * 2\n}\nfunc Thrice(a int) int {\n\treturn a * 3\n}\n",
 		}},
 		{name: "std-and-local", main: "main.tsh", files: map[string]string{
 			"main.tsh": "import (\n\t\"strings\"\n\tu \"u.tsh\"\n)\nprint(strings.Contains(\"abc\", \"b\"), u.Id(" + m(0) + "))\n",
-			"u.tsh":    "func Id(a int) int {\n\treturn a\n}\n",
+			"u.tsh":    "print(\"u loaded\")\nfunc Id(a int) int {\n\treturn a\n}\n",
 		}},
 	}
 }
@@ -69,6 +71,9 @@ func CheckC14(r *Run) int {
 		maxK = 3
 	}
 	dirs := []string{"/work", "/srv/my project/v1.2", "rel/sub"}
+	if quick {
+		dirs = dirs[1:]
+	}
 	targets := []string{"bash", "batch"}
 	mount := func(c *gosym.Ctx, dir string, p pureProg) string {
 		for f, src := range p.files {
